@@ -156,4 +156,17 @@ theorem runLoop_reach {b : St → Resume → Burst ℚ St} {fuel : Nat} {s0 : KS
       simpa [runLoop, hs] using this
     · exact ⟨s, by simp [runLoop, hs, lastState], h⟩
 
+/-- an accepted `ack` action is not stamped in the future -/
+theorem ackOk_of_step {S S' : Sender ℚ} {x : AckIn ℚ} {o : List (Tx ℚ)} (hx : ActOk (.ack x)) (h : S.step (.ack x) = .ok S' o) :
+    AckOk S x := by
+  refine ⟨hx, ?_⟩
+  by_contra hc
+  have : S.step (.ack x) = .reject .fromFuture := by
+    show S.ackStep x = _
+    unfold Sender.ackStep
+    have h1 : ¬ x.fid < 10000 := Nat.not_lt.mpr hx
+    simp only [h1, if_false, not_le.mp hc, if_true]
+  rw [this] at h; cases h
+
+
 end SndK
